@@ -198,6 +198,27 @@ Theorem C12_reshape_wide_long_wide :
 Proof. exact reshape_w2l_l2w. Qed.
 Print Assumptions C12_reshape_wide_long_wide.
 
+(* long-to-wide then wide-to-long (-i the new columns): a group of long rows that share their other fields and have
+   pairwise distinct keys comes back row for row (key/value column names new and distinct; keys not among the other names) *)
+Theorem C12_reshape_long_wide_long :
+  forall ko vo others ps,
+    wf (others ++ ps) -> wf ps -> (forall k, In k (keys ps) -> ~ In k (keys others)) ->
+    ~ In ko (keys others) -> ~ In vo (keys others) -> ko <> vo -> ps <> [] ->
+    flat_map (reshape_w2l (keys ps) ko vo) (reshape_l2w ko vo (map (long_row ko vo others) ps))
+    = map (long_row ko vo others) ps.
+Proof. exact reshape_l2w_w2l. Qed.
+Print Assumptions C12_reshape_long_wide_long.
+
+(* ---- altkv: values pair up as key/value (a later pair with the same key overwrites in place), an odd last value gets
+   the key <number of pairs + 1> *)
+Theorem C12_altkv_pairs_values :
+  forall r, altkv r =
+    let '(ps, last) := pairs_vals (values r) in
+    let o' := fold_left (fun o p => put (fst p) (snd p) o) ps [] in
+    match last with Some v => put (itoa (1 + N.of_nat (List.length ps))) v o' | None => o' end.
+Proof. exact altkv_spec. Qed.
+Print Assumptions C12_altkv_pairs_values.
+
 (* ---- template: exactly the template names (first occurrence order), record values where present, fill elsewhere *)
 Theorem C12_template_names_and_values :
   forall fs fill r,
@@ -216,6 +237,9 @@ Example C12_nonvacuous :
   /\ reorder_f [B "b"; B "x"] r = [(B "b", B ""); (B "x", B "p;q;r"); (B "a", B "1"); (B "a.b", B "3")]
   /\ rename [B "a"; B "new"] r = [(B "new", B "1"); (B "x", B "p;q;r"); (B "b", B ""); (B "a.b", B "3")]
   /\ get (B "x") r = Some (B "p;q;r")
+  /\ altkv r = [(B "1", B "p;q;r"); (B "", B "3")]
+  /\ reshape_l2w (B "K") (B "V") (map (long_row (B "K") (B "V") [(B "id", B "7")]) [(B "x", B "1"); (B "y", B "2")])
+     = [[(B "id", B "7"); (B "x", B "1"); (B "y", B "2")]]
   /\ implode_fields (B "a.b") ";" [(B "axb_1", B "p"); (B "a.b_1", B "q"); (B "z", B "3"); (B "a.b_2", B "r")]
      = [(B "axb_1", B "p"); (B "a.b", B "q;r"); (B "z", B "3")]
   /\ label [B "n1"; B "b"] r = [(B "n1", B "1"); (B "b", B "p;q;r"); (B "a.b", B "3")]
